@@ -12,13 +12,12 @@
 //!  * write budget: once spent, every `put`/`delete`/`flush` returns `Err` without effect
 //!    (the n-th persistent write fails = the process died before it);
 //!  * operation log: (store id, kind) of every successful persistent write, in order.
-#![allow(static_mut_refs)]
-use std::cell::RefCell;
+use std::cell::{Cell, RefCell};
 use std::fmt;
 use std::path::Path;
 
 #[cfg(kani)]
-pub const CAP: usize = 4;
+pub const CAP: usize = @RCAP@;
 
 pub const LOG_CAP: usize = 24;
 
@@ -53,10 +52,55 @@ type Row = (Vec<u8>, Vec<u8>);
 // ------------------------------------------------------------------------------------------
 // backing container
 // ------------------------------------------------------------------------------------------
+// Under Kani every row is its own heap object, the store only holds the pointers, and a row
+// keeps its key and value bytes INLINE (fixed arrays + lengths), never as `Vec`s. Measured on
+// CBMC 6.11:
+//  * rows inline in the store: a row reached through a symbolic index is a symbolic offset into
+//    whatever object embeds the store, and every access becomes a byte_extract over the whole
+//    table object (15 M SAT variables for one lookup);
+//  * rows holding `Vec<u8>`s: the heap object of a row is an untyped byte array for CBMC, a buffer
+//    pointer read back from it has every pointer stored in that object as candidate (1-byte key
+//    buffer, 24-byte value buffer), and `memcpy` from such a pointer silently yields unconstrained
+//    bytes (Kani runs CBMC without pointer-primitive checks).
+// With inline bytes no pointer is ever stored inside a heap object of the model.
+#[cfg(kani)]
+pub const KMAX: usize = @KMAX@;
+#[cfg(kani)]
+pub const VMAX: usize = @VMAX@;
+
+#[cfg(kani)]
+pub struct KRow {
+    pub klen: usize,
+    pub vlen: usize,
+    pub k: [u8; KMAX],
+    pub v: [u8; VMAX],
+}
+#[cfg(kani)]
+impl KRow {
+    fn new(key: &[u8], value: &[u8]) -> KRow {
+        assert!(key.len() <= KMAX, "VERIF-MODEL-BOUND: rocksdb model key longer than KMAX");
+        assert!(value.len() <= VMAX, "VERIF-MODEL-BOUND: rocksdb model value longer than VMAX");
+        let mut r = KRow { klen: key.len(), vlen: value.len(), k: [0; KMAX], v: [0; VMAX] };
+        r.k[..key.len()].copy_from_slice(key);
+        r.v[..value.len()].copy_from_slice(value);
+        r
+    }
+    pub fn key(&self) -> &[u8] {
+        &self.k[..self.klen]
+    }
+    pub fn value(&self) -> &[u8] {
+        &self.v[..self.vlen]
+    }
+    fn set_value(&mut self, value: &[u8]) {
+        assert!(value.len() <= VMAX, "VERIF-MODEL-BOUND: rocksdb model value longer than VMAX");
+        self.vlen = value.len();
+        self.v[..value.len()].copy_from_slice(value);
+    }
+}
 #[cfg(kani)]
 pub struct Store {
     pub len: usize,
-    pub items: [Option<Row>; CAP],
+    pub items: [Option<Box<KRow>>; CAP],
 }
 #[cfg(kani)]
 impl Store {
@@ -66,20 +110,23 @@ impl Store {
     fn len(&self) -> usize {
         self.len
     }
-    fn row(&self, i: usize) -> &Row {
-        self.items[i].as_ref().unwrap()
+    fn key(&self, i: usize) -> &[u8] {
+        self.items[i].as_ref().unwrap().key()
     }
-    fn row_mut(&mut self, i: usize) -> &mut Row {
-        self.items[i].as_mut().unwrap()
+    fn value(&self, i: usize) -> &[u8] {
+        self.items[i].as_ref().unwrap().value()
     }
-    fn insert_at(&mut self, i: usize, r: Row) {
+    fn set_value(&mut self, i: usize, value: &[u8]) {
+        self.items[i].as_mut().unwrap().set_value(value)
+    }
+    fn insert_at(&mut self, i: usize, key: &[u8], value: &[u8]) {
         assert!(self.len < CAP, "VERIF-MODEL-BOUND: rocksdb model capacity exceeded");
         let mut j = self.len;
         while j > i {
             self.items[j] = self.items[j - 1].take();
             j -= 1;
         }
-        self.items[i] = Some(r);
+        self.items[i] = Some(Box::new(KRow::new(key, value)));
         self.len += 1;
     }
     fn remove_at(&mut self, i: usize) {
@@ -105,14 +152,17 @@ impl Store {
     fn len(&self) -> usize {
         self.items.len()
     }
-    fn row(&self, i: usize) -> &Row {
-        &self.items[i]
+    fn key(&self, i: usize) -> &[u8] {
+        &self.items[i].0
     }
-    fn row_mut(&mut self, i: usize) -> &mut Row {
-        &mut self.items[i]
+    fn value(&self, i: usize) -> &[u8] {
+        &self.items[i].1
     }
-    fn insert_at(&mut self, i: usize, r: Row) {
-        self.items.insert(i, r);
+    fn set_value(&mut self, i: usize, value: &[u8]) {
+        self.items[i].1 = value.to_vec();
+    }
+    fn insert_at(&mut self, i: usize, key: &[u8], value: &[u8]) {
+        self.items.insert(i, (key.to_vec(), value.to_vec()));
     }
     fn remove_at(&mut self, i: usize) {
         self.items.remove(i);
@@ -120,54 +170,57 @@ impl Store {
 }
 
 // ------------------------------------------------------------------------------------------
-// verification facilities (single-threaded use only)
+// verification facilities: a control block shared by the stores of one harness.
+// No `static mut` here: measured on Kani 0.68 - a zero-initialised `static mut u64` shares its
+// allocation with other all-zero constants (e.g. the capacity of `Vec::new()`), so `X += 1`
+// on such a static silently changes that constant. State therefore lives in objects.
 // ------------------------------------------------------------------------------------------
 pub const OP_PUT: u8 = 1;
 pub const OP_DELETE: u8 = 2;
 pub const OP_FLUSH: u8 = 3;
 
-pub static mut WRITE_BUDGET: Option<u64> = None;
-pub static mut WRITES_DONE: u64 = 0;
-pub static mut OPLOG: [(u16, u8); LOG_CAP] = [(0, 0); LOG_CAP];
-pub static mut OPLOG_LEN: usize = 0;
-
-pub fn verif_reset() {
-    unsafe {
-        WRITE_BUDGET = None;
-        WRITES_DONE = 0;
-        OPLOG_LEN = 0;
+pub struct Ctl {
+    /// remaining persistent writes; None = unlimited
+    pub budget: Cell<Option<u64>>,
+    pub writes_done: Cell<u64>,
+    pub log: RefCell<[(u16, u8); LOG_CAP]>,
+    pub log_len: Cell<usize>,
+}
+impl Ctl {
+    pub fn new() -> Ctl {
+        Ctl { budget: Cell::new(None), writes_done: Cell::new(0), log: RefCell::new([(0, 0); LOG_CAP]), log_len: Cell::new(0) }
     }
-}
-pub fn verif_set_budget(b: Option<u64>) {
-    unsafe {
-        WRITE_BUDGET = b;
+    /// A control block with 'static lifetime for a harness (leaked on purpose).
+    pub fn leak() -> &'static Ctl {
+        Box::leak(Box::new(Ctl::new()))
     }
-}
-pub fn verif_writes_done() -> u64 {
-    unsafe { WRITES_DONE }
-}
-pub fn verif_oplog_len() -> usize {
-    unsafe { OPLOG_LEN }
-}
-pub fn verif_oplog(i: usize) -> (u16, u8) {
-    unsafe { OPLOG[i] }
-}
-
-fn spend(store: u16, kind: u8) -> Result<(), Error> {
-    unsafe {
-        if let Some(b) = WRITE_BUDGET {
+    pub fn set_budget(&self, b: Option<u64>) {
+        self.budget.set(b);
+    }
+    pub fn writes_done(&self) -> u64 {
+        self.writes_done.get()
+    }
+    pub fn oplog_len(&self) -> usize {
+        self.log_len.get()
+    }
+    pub fn oplog(&self, i: usize) -> (u16, u8) {
+        self.log.borrow()[i]
+    }
+    fn spend(&self, store: u16, kind: u8) -> Result<(), Error> {
+        if let Some(b) = self.budget.get() {
             if b == 0 {
                 return Err(Error("verif: write budget exhausted (crash point)"));
             }
-            WRITE_BUDGET = Some(b - 1);
+            self.budget.set(Some(b - 1));
         }
-        WRITES_DONE += 1;
-        if OPLOG_LEN < LOG_CAP {
-            OPLOG[OPLOG_LEN] = (store, kind);
-            OPLOG_LEN += 1;
+        self.writes_done.set(self.writes_done.get() + 1);
+        let n = self.log_len.get();
+        if n < LOG_CAP {
+            self.log.borrow_mut()[n] = (store, kind);
+            self.log_len.set(n + 1);
         }
+        Ok(())
     }
-    Ok(())
 }
 
 // ------------------------------------------------------------------------------------------
@@ -176,13 +229,14 @@ fn spend(store: u16, kind: u8) -> Result<(), Error> {
 #[cfg(kani)]
 pub struct DB {
     pub id: u16,
+    pub ctl: Option<&'static Ctl>,
     pub store: RefCell<Store>,
 }
 #[cfg(not(kani))]
 pub struct DB {
     pub id: u16,
+    pub ctl: Option<&'static Ctl>,
     pub store: std::sync::Arc<std::sync::Mutex<Store>>,
-    _unused: RefCell<()>,
 }
 
 // The model is only ever executed single-threaded under Kani; natively the rows sit behind a mutex.
@@ -214,19 +268,30 @@ impl DB {
         // at the file system (fresh-directory detection) behave the same
         let _ = std::fs::create_dir_all(path.as_ref());
         let _ = std::fs::write(path.as_ref().join("CURRENT"), b"verif-model\n");
-        Ok(DB { id: 0, store: registry::open(path.as_ref().to_path_buf()), _unused: RefCell::new(()) })
+        Ok(DB { id: 0, ctl: None, store: registry::open(path.as_ref().to_path_buf()) })
     }
     #[cfg(kani)]
     pub fn empty() -> DB {
-        DB { id: 0, store: RefCell::new(Store::new()) }
+        DB { id: 0, ctl: None, store: RefCell::new(Store::new()) }
     }
+    /// A store that reports to the control block `ctl` under the id `id`.
     #[cfg(kani)]
-    pub fn empty_named(id: u16) -> DB {
-        DB { id, store: RefCell::new(Store::new()) }
+    pub fn empty_ctl(id: u16, ctl: Option<&'static Ctl>) -> DB {
+        DB { id, ctl, store: RefCell::new(Store::new()) }
     }
     #[cfg(not(kani))]
     pub fn empty() -> DB {
-        DB { id: 0, store: std::sync::Arc::new(std::sync::Mutex::new(Store::new())), _unused: RefCell::new(()) }
+        DB { id: 0, ctl: None, store: std::sync::Arc::new(std::sync::Mutex::new(Store::new())) }
+    }
+    #[cfg(not(kani))]
+    pub fn empty_ctl(id: u16, ctl: Option<&'static Ctl>) -> DB {
+        DB { id, ctl, store: std::sync::Arc::new(std::sync::Mutex::new(Store::new())) }
+    }
+    fn spend(&self, kind: u8) -> Result<(), Error> {
+        match self.ctl {
+            Some(c) => c.spend(self.id, kind),
+            None => Ok(()),
+        }
     }
 
     #[cfg(kani)]
@@ -242,7 +307,7 @@ impl DB {
     fn pos(s: &Store, key: &[u8]) -> Result<usize, usize> {
         let mut i = 0;
         while i < s.len() {
-            let k = s.row(i).0.as_slice();
+            let k = s.key(i);
             if k == key {
                 return Ok(i);
             }
@@ -256,26 +321,26 @@ impl DB {
 
     pub fn get<K: AsRef<[u8]>>(&self, key: K) -> Result<Option<Vec<u8>>, Error> {
         self.with(|s| match Self::pos(s, key.as_ref()) {
-            Ok(i) => Ok(Some(s.row(i).1.clone())),
+            Ok(i) => Ok(Some(s.value(i).to_vec())),
             Err(_) => Ok(None),
         })
     }
     pub fn put<K: AsRef<[u8]>, V: AsRef<[u8]>>(&self, key: K, value: V) -> Result<(), Error> {
-        spend(self.id, OP_PUT)?;
+        self.spend(OP_PUT)?;
         self.with(|s| {
             match Self::pos(s, key.as_ref()) {
                 Ok(i) => {
-                    s.row_mut(i).1 = value.as_ref().to_vec();
+                    s.set_value(i, value.as_ref());
                 }
                 Err(i) => {
-                    s.insert_at(i, (key.as_ref().to_vec(), value.as_ref().to_vec()));
+                    s.insert_at(i, key.as_ref(), value.as_ref());
                 }
             }
             Ok(())
         })
     }
     pub fn delete<K: AsRef<[u8]>>(&self, key: K) -> Result<(), Error> {
-        spend(self.id, OP_DELETE)?;
+        self.spend(OP_DELETE)?;
         self.with(|s| {
             if let Ok(i) = Self::pos(s, key.as_ref()) {
                 s.remove_at(i);
@@ -284,7 +349,7 @@ impl DB {
         })
     }
     pub fn flush(&self) -> Result<(), Error> {
-        spend(self.id, OP_FLUSH)
+        self.spend(OP_FLUSH)
     }
     pub fn iterator<'a>(&'a self, mode: IteratorMode<'_>) -> DBIterator<'a> {
         let (next, fwd) = self.with(|s| match mode {
@@ -316,16 +381,16 @@ impl DB {
         self.with(|s| s.len())
     }
     pub fn verif_row(&self, i: usize) -> (Vec<u8>, Vec<u8>) {
-        self.with(|s| s.row(i).clone())
+        self.with(|s| (s.key(i).to_vec(), s.value(i).to_vec()))
     }
     /// Plant a row without spending budget or logging (building a pre-state).
     pub fn verif_plant(&self, key: &[u8], value: &[u8]) {
         self.with(|s| match Self::pos(s, key) {
             Ok(i) => {
-                s.row_mut(i).1 = value.to_vec();
+                s.set_value(i, value);
             }
             Err(i) => {
-                s.insert_at(i, (key.to_vec(), value.to_vec()));
+                s.insert_at(i, key, value);
             }
         })
     }
@@ -349,14 +414,12 @@ impl<'a> Iterator for DBIterator<'a> {
                 if next >= s.len() {
                     return None;
                 }
-                let kv = s.row(next);
-                Some((kv.0.clone().into_boxed_slice(), kv.1.clone().into_boxed_slice()))
+                Some((s.key(next).to_vec().into_boxed_slice(), s.value(next).to_vec().into_boxed_slice()))
             } else {
                 if next == 0 || next > s.len() {
                     return None;
                 }
-                let kv = s.row(next - 1);
-                Some((kv.0.clone().into_boxed_slice(), kv.1.clone().into_boxed_slice()))
+                Some((s.key(next - 1).to_vec().into_boxed_slice(), s.value(next - 1).to_vec().into_boxed_slice()))
             }
         });
         match out {
